@@ -404,6 +404,14 @@ class BuiltinsMixin(object):
                                    self.snapshot(a, path),
                                    self.snapshot(b, path))))
             return [(path, o)]
+        if inplace and sym in ('|', '&', '-', '^', '+') and \
+                isinstance(a, (Sym, App)) and \
+                not (isinstance(a, Sym) and a.typ in (('b', 'int'),
+                                                      ('b', 'bool'),
+                                                      ('b', 'str'))):
+            # x op= y on an object of unknown class: in place if the class
+            # has __iop__ (set, list, ...); recorded for the purity clauses
+            self.event(path, 'maybe-mutate', a, 'i' + sym, (b,), node)
         return [(path, App('binop', Const(sym), a, b))]
 
     def is_strlike(self, v):
